@@ -433,10 +433,28 @@ class WsgiApplication(HttpBase):
             p_ctx.transport.resp_code = \
                 p_ctx.out_protocol.fault_to_http_response_code(error)
 
-        self.get_out_string(p_ctx)
+        try:
+            self.get_out_string(p_ctx)
 
-        # consume the generator to get the length
-        p_ctx.out_string = list(p_ctx.out_string)
+            # consume the generator to get the length
+            p_ctx.out_string = list(p_ctx.out_string)
+
+        except Exception as e:
+            # the fault itself can't be written by the output protocol (text
+            # that xml can't carry, a detail the encoder can't serialize, a
+            # fault code soap 1.2 has no place for...). the client still gets
+            # an answer.
+            logger.exception(e)
+            p_ctx.out_error = Fault('Server', "Internal Error")
+            p_ctx.out_document = None
+            p_ctx.out_string = None
+            p_ctx.transport.resp_code = HTTP_500
+            try:
+                self.get_out_string(p_ctx)
+                p_ctx.out_string = list(p_ctx.out_string)
+            except Exception as e:
+                logger.exception(e)
+                p_ctx.out_string = [b'']
 
         p_ctx.transport.resp_headers['Content-Length'] = \
                                     str(sum((len(s) for s in p_ctx.out_string)))
